@@ -649,21 +649,33 @@ pub fn real_pool_crosscheck(seed: u64, tier: Tier) -> (Value, Vec<(Viol, Value)>
                         serde_json::to_value(&tr).unwrap(),
                     )),
                 }
-                // 3. the property itself on the real pool's result
+                // 3. the property itself on the real pool's result. A violation is reported
+                //    through the simulator's replay of the recorded tree (exactly reproducible).
                 if n > 0 {
                     let ex = exact_scalar(&data, <$T as Est>::ORDER.max(2) as u32);
+                    let mut bad: Option<Viol> = None;
                     if got.count().map_or(false, |c| c != n as u64) {
-                        viols.push((Viol::new(format!("{}:par_len", <$T>::NAME), format!("real pool: len {:?} expected {}", got.count(), n)), serde_json::to_value(&tr).unwrap()));
+                        bad = Some(Viol::new(format!("{}:par_len", <$T>::NAME), format!("real pool: len {:?} expected {}", got.count(), n)));
                     } else if <$T as Est>::ORDER >= 1 {
                         if let Err(v) = check_scalar_node(&got, &ex, &mut st, "real rayon pool") {
-                            viols.push((v, serde_json::to_value(&tr).unwrap()));
+                            bad = Some(v);
                         }
                     } else {
                         for (s, a) in got.stats_vec() {
                             let want = if s == Stat::Min { ex.min } else { ex.max };
                             if !(a == want) {
-                                viols.push((Viol::new(format!("{}:{}", <$T>::NAME, s.name()), format!("real pool: {:e} expected {:e}", a, want)), serde_json::to_value(&tr).unwrap()));
+                                bad = Some(Viol::new(format!("{}:{}", <$T>::NAME, s.name()), format!("real pool: {:e} expected {:e}", a, want)));
                             }
+                        }
+                    }
+                    if let Some(b) = bad {
+                        let mut st2 = Stats::default();
+                        match PScenario.execute(&tr, &mut st2) {
+                            Some(v) => viols.push((Viol::new(v.class, format!("{} [first seen on a real rayon pool: {}]", v.detail, b.detail)), serde_json::to_value(&tr).unwrap())),
+                            None => viols.push((
+                                Viol::new("harness", format!("collect #{}: real pool result violates ({}) but the simulator's replay of the recorded tree does not", i, b.detail)),
+                                serde_json::to_value(&tr).unwrap(),
+                            )),
                         }
                     }
                 }
